@@ -69,10 +69,10 @@ def dist_fn(dist, c, a, b):
 
 
 def run(ctx):
-    n = 2000 if ctx.tier == "quick" else 40000
+    n = ctx.n(2000, 40000)
     stats = histprop.run_history_property(ctx, "C06", gen_case, n, RULE, nontrivial, judge=judge, dist_fn=dist_fn)
     rng = core.Rng(ctx.seed + 1)
-    nf = 200 if ctx.tier == "quick" else 4000
+    nf = ctx.n(200, 4000)
     cases = [gen_case(rng.fork("fc%d" % i)) for i in range(nf)]
     done = filepass.run_layers_through_files(ctx, [filepass.layers_of_history(c) for c in cases], rng, "C06", "c06-disagreement")
     stats["distribution"]["through_layer_files"] = done
